@@ -748,6 +748,11 @@ func (r Stack) Insert(x any, left int) (ok bool) {
 insert is a private method called by [Stack.Insert].
 */
 func (r *stack) insert(x any, left int) (ok bool) {
+	// length and capacity must be judged
+	// while the lock is held, not before.
+	r.lock()
+	defer r.unlock()
+
 	// note the len before we start
 	var u1 int = r.ulen()
 
@@ -757,9 +762,6 @@ func (r *stack) insert(x any, left int) (ok bool) {
 		//err := errorf("failed: capacity violation")
 		return
 	}
-
-	r.lock()
-	defer r.unlock()
 
 	cfg, _ := r.config()
 
